@@ -24,3 +24,29 @@ pub fn dependent_chain(coin: &'static Coin, first_height: u64, n_blocks: usize) 
     }
     cb
 }
+
+/// A chain index of realistic length (mainnet has passed 900 000 blocks) whose bulk is headers only: the first blocks
+/// (`real`, heights 0..) have block data in blk00000.dat; heights real.len()..total are index records of a header chain linked
+/// by prev_hash whose data offsets lie beyond the end of blk00000.dat (they are never read as long as the run's range ends
+/// inside `real`). `stale` are fully validated blocks of a branch forking off genesis (heights 1..), stored in blk00001.dat.
+pub fn headers_only_world(coin: &'static Coin, real: &ChainBuilder, total: usize, stale: &[refmodel::ser::Block]) -> refmodel::world::World {
+    use refmodel::ser::Header;
+    use refmodel::world::{IndexRec, World, ACTIVE};
+    let mut w = World::new(coin);
+    // stale branch first: an implementation that resolves heights by insertion or iteration order has every chance to prefer it
+    for (i, b) in stale.iter().enumerate() {
+        w.add_block_status(1, 1 + i as u64, b, ACTIVE);
+    }
+    for (h, b) in real.blocks.iter().enumerate() {
+        w.add_block(0, h as u64, b);
+    }
+    let mut prev = real.tip_hash();
+    for h in real.blocks.len()..total {
+        let hd = Header { version: 0x2000_0000, prev, merkle: refmodel::hash::sha256(&(h as u64).to_le_bytes()), time: 1_300_000_000 + h as u32, bits: 0x1d00ffff, nonce: h as u32 };
+        let ser = hd.ser();
+        let hash = refmodel::hash::sha256d(&ser);
+        w.put_rec(&IndexRec { hash, client_version: 270000, height: h as u64, status: ACTIVE, ntx: 1, file: 0, data_pos: (1u64 << 33) + 300 * h as u64, undo_pos: 8, header: ser });
+        prev = hash;
+    }
+    w
+}
